@@ -30,6 +30,7 @@ EXT_EXC_BASES = {
     "ParseError": ["SyntaxError"],
     "XMLSyntaxError": ["SyntaxError"],
     "XIncludeError": ["Exception"],
+    "FatalIncludeError": ["SyntaxError"],
     "ExpatError": ["Exception"],
     "PackageNotFoundError": ["ImportError"],
 }
@@ -49,6 +50,7 @@ EXTERNAL_RAISES: dict[str, set[str]] = {
     "binascii.hexlify": {"TypeError"},
     "base64.b64decode": {"binascii.Error"},
     "base64.b64encode": {"TypeError"},
+    "base64.b16encode": {"TypeError"},
     "datetime.datetime.strptime": {"ValueError"},
     "datetime.datetime": {"ValueError", "TypeError"},
     "datetime.date": {"ValueError", "TypeError"},
@@ -65,7 +67,6 @@ EXTERNAL_RAISES: dict[str, set[str]] = {
     "lxml.etree.parse": {"XMLSyntaxError", "OSError"},
     "lxml.etree.fromstring": {"XMLSyntaxError"},
     "lxml.etree.iterwalk": set(),
-    "builtins.str.encode": {"UnicodeEncodeError"},
     "builtins.bytes.decode": {"UnicodeDecodeError"},
     "builtins.str.index": {"ValueError"},
     "builtins.list.index": {"ValueError"},
@@ -76,7 +77,6 @@ EXTERNAL_RAISES: dict[str, set[str]] = {
     "pathlib.Path.read_text": {"OSError", "UnicodeDecodeError"},
     "pathlib.Path.read_bytes": {"OSError"},
     "urllib.request.urlopen": {"OSError", "ValueError"},
-    "xml.etree.ElementTree.QName": {"ValueError"},  # lxml's QName validates; stdlib's does not: kept, conservative only where tabled
 }
 # arguments of a proven kind narrow the set: (callee, kind of first arg) -> raises
 NARROW_BY_ARG = {
@@ -89,6 +89,9 @@ NARROW_BY_ARG = {
     ("builtins.float", "builtins.float"): set(),
     ("builtins.bytes", "builtins.bytes"): set(),
     ("builtins.dict", "builtins.dict"): set(),
+    ("base64.b64encode", "builtins.bytes"): set(),
+    ("base64.b16encode", "builtins.bytes"): set(),
+    ("binascii.hexlify", "builtins.bytes"): set(),
 }
 
 
@@ -277,12 +280,13 @@ class MayRaise:
     """Least fixpoint of escaping exception classes per function."""
 
     def __init__(self, ctx: Ctx, *, assert_ok: "callable | None" = None, infeasible: "callable | None" = None,
-                 user_callables: dict[str, set[str]] | None = None, extra_external: dict[str, set[str]] | None = None,
+                 str_input: "callable | None" = None, user_callables: dict[str, set[str]] | None = None, extra_external: dict[str, set[str]] | None = None,
                  skip_modules: tuple[str, ...] = ("xsdata.codegen", "xsdata.utils.testing", "xsdata.cli")):
         self.ctx = ctx
         self.hier = _hier(ctx)
         self.res = ctx.res
         self.assert_ok = assert_ok or (lambda fi, node: False)
+        self.str_input = str_input or (lambda fi, call: False)
         self.infeasible = infeasible or (lambda fi, node, exc: False)
         self.external = dict(EXTERNAL_RAISES)
         if extra_external:
@@ -339,27 +343,54 @@ class MayRaise:
             for f in self.res.ctor_funcs(c):
                 for exc, org in self.sets.get(f.qual, {}).items():
                     out.setdefault(exc, Origin(fi.qual, site, f"construct {c.name}", org))
+        if (r.unresolved or not (r.funcs or r.ctors or r.externals)) and any(k.arg is None for k in call.keywords) \
+                and self._is_type_valued(fi, call.func):
+            # dynamic construction with **kwargs of an unknown class: wrong/missing keyword -> TypeError
+            out.setdefault("TypeError", Origin(fi.qual, site, f"{unparse(call.func)}(**...) of a class known only at run time"))
         for d in r.externals:
             raises = self._external_raises(fi, call, d)
             for exc in raises:
                 out.setdefault(exc, Origin(fi.qual, site, f"external {d}({', '.join(unparse(a) for a in call.args[:2])})"))
         return out
 
+    @staticmethod
+    def _is_type_valued(fi: FuncInfo, f: ast.expr) -> bool:
+        if isinstance(f, ast.Name):
+            for a in fi.params:
+                if a.arg == f.id and a.annotation is not None and unparse(a.annotation).startswith(("type", "Type")):
+                    return True
+        return False
+
+    def _isinstance_kind(self, fi: FuncInfo, call: ast.Call, arg: ast.expr) -> str | None:
+        """Kind of ``arg`` established by an isinstance test that dominates the call."""
+        from .cfg import build_cfg
+
+        g = build_cfg(fi.node)
+        n = g.node_of(call)
+        if n is None:
+            return None
+        txt = unparse(arg)
+        for t in g.nodes:
+            if t.kind == "test" and isinstance(t.ast, ast.Call) and unparse(t.ast.func) == "isinstance" and len(t.ast.args) == 2 \
+                    and unparse(t.ast.args[0]) == txt and isinstance(t.ast.args[1], ast.Name):
+                if g.only_if(n.id, t.id, True):
+                    return f"builtins.{t.ast.args[1].id}"
+        return None
+
     def _external_raises(self, fi: FuncInfo, call: ast.Call, d: str) -> set[str]:
         key = d
         if key not in self.external:
-            # method of an external instance: try Class.method with module stripped variants
-            alt = None
-            for k in self.external:
-                if d.endswith("." + k) or k.endswith("." + d):
-                    alt = k
-                    break
-            if alt is None:
-                self.unmodelled.add(d)
-                return set()
-            key = alt
+            self.unmodelled.add(d)
+            return set()
         raises = self.external[key]
+        if self.str_input(fi, call):
+            return NARROW_BY_ARG.get((key, "builtins.str"), raises)
+        if key == "builtins.next" and len(call.args) >= 2:
+            return set()  # next(it, default) never raises StopIteration
         if call.args:
+            k = self._isinstance_kind(fi, call, call.args[0])
+            if k and (key, k) in NARROW_BY_ARG:
+                return NARROW_BY_ARG[(key, k)]
             for t in self.res.expr_types(fi, call.args[0]):
                 if t[0] == "extinst" and (key, t[1]) in NARROW_BY_ARG:
                     return NARROW_BY_ARG[(key, t[1])]
